@@ -120,6 +120,7 @@ func c05direct(c *vt.Ctx, what string, script []c05dstep, callers int) {
 				Params []int           `json:"params"`
 			}
 			var pending []req
+			readBudget := callers
 			send := func(rec string) { srvCh.Send([]byte(rec)) }
 			recvOne := func() bool {
 				rec, err := srvCh.Recv()
@@ -159,7 +160,9 @@ func c05direct(c *vt.Ctx, what string, script []c05dstep, callers int) {
 						send(fmt.Sprintf(`[{"jsonrpc":"2.0","id":%d,"result":1},{"jsonrpc":"2.0","id":%d,"result":2},{"jsonrpc":"2.0","id":%d,"error":{"code":-5,"message":"x"}}]`, 800000+3*k, 800001+3*k, 800002+3*k))
 					}
 				case 'r':
-					for k := 0; k < st.n; k++ {
+					// never wait for more requests than there are callers
+					for k := 0; k < st.n && readBudget > 0; k++ {
+						readBudget--
 						if !recvOne() {
 							return
 						}
@@ -168,7 +171,8 @@ func c05direct(c *vt.Ctx, what string, script []c05dstep, callers int) {
 					answer()
 				}
 			}
-			// drain: read and answer until the client hangs up
+			// drain: answer what has been read, then read and answer until the client hangs up
+			answer()
 			for recvOne() {
 				answer()
 			}
